@@ -2029,6 +2029,67 @@ def rt_none_annotation(req):
 RT['none_annotation'] = rt_none_annotation
 
 
+_ANNOTATE_BOUND_SRC = '''%s
+from sigtools import modifiers
+class R(object): pass
+class A(object): pass
+MARK = object()
+class C(object):
+    @modifiers.annotate('R', a='A')
+    def m(self, a, b=1): pass
+    @modifiers.annotate(MARK, a=MARK)
+    def n(self, a, b=1): pass
+    @modifiers.kwoargs('b')
+    @modifiers.annotate('R', a='A')
+    def k(self, a, b=1): pass
+class Init(object):
+    @modifiers.annotate(a='A')
+    def __init__(self, a): pass
+'''
+
+
+def rt_annotate_bound(req):
+    """values given to modifiers.annotate are reported verbatim - a string stays that string, an object that object - also
+    through the bound method, a stacked modifier, a class, and mask / merge / embed of those, eager and postponed alike"""
+    from . import progs
+    problems = []
+    for future in ('', 'from __future__ import annotations'):
+        mod, fname = progs.load_module(_ANNOTATE_BOUND_SRC % future)
+        try:
+            inst = mod.C()
+            cases = [('C.m', mod.C.m, 'R', 'A'), ('C().m', inst.m, 'R', 'A'), ('C().n', inst.n, mod.MARK, mod.MARK),
+                     ('C().k', inst.k, 'R', 'A'), ('Init', mod.Init, None, 'A')]
+            for label, obj, ret, ann in cases:
+                for how in ('signature', 'mask', 'merge', 'embed'):
+                    try:
+                        with warnings.catch_warnings():
+                            warnings.simplefilter('ignore')
+                            sg = sigtools.signature(obj)
+                            if how == 'mask':
+                                sg = signatures.mask(sg, 0)
+                            elif how == 'merge':
+                                sg = signatures.merge(sg, sg)
+                            elif how == 'embed':
+                                sg = signatures.embed(sigtools.signature(lambda *args, **kwargs: None), sg)
+                            ev = sg.evaluated()
+                    except Exception as e:  # noqa
+                        problems.append('annotate-verbatim-raises: %s of %s (%s): %s: %s' % (how, label, future or 'eager', type(e).__name__, e))
+                        continue
+                    got_a = ev.parameters['a'].annotation
+                    got_r = None if ev.return_annotation is ev.empty else ev.return_annotation
+                    if how == 'embed':
+                        ret = None          # the return annotation of an embedding is the outer signature's
+                    if got_a is not ann and got_a != ann or (ret is not None and (got_r is not ret and got_r != ret)):
+                        problems.append('annotate-verbatim: %s of %s (%s module): annotate was given a=%r, return %r; evaluated() reports a=%r, '
+                                        'return %r' % (how, label, future or 'eager', ann, ret, got_a, got_r))
+        finally:
+            progs.unload(fname)
+    return ('ok', tuple(problems[:2]), 'probed')
+
+
+RT['annotate_bound'] = rt_annotate_bound
+
+
 _WRAPCHAIN_DECO = """%s
 import functools
 class Flag(object):
@@ -2125,6 +2186,12 @@ class Item(object):
     where = 'lib'
 def fetch(item: Item, n: int = 0) -> Item:
     return item
+def make_holder(deco):
+    class Holder(object):
+        @deco
+        def fetch(self, item: Item, n: int = 0) -> Item:
+            return item
+    return Holder
 """
 
 
@@ -2139,8 +2206,11 @@ def rt_wraps_crossmodule(req):
             dmod, dname = progs.load_module(_WRAPS_DECO % dfut)
             lmod, lname = progs.load_module(_WRAPS_LIB % lfut)
             try:
-                for mk in ('deco', 'deco_x'):
-                    w = getattr(dmod, mk)(lmod.fetch)
+                for mk in ('deco', 'deco_x', 'deco:method'):
+                    if mk.endswith(':method'):
+                        w = lmod.make_holder(dmod.deco)().fetch        # the bound method of a decorated method
+                    else:
+                        w = getattr(dmod, mk)(lmod.fetch)
                     for auto in (False, True):
                         label = '%s, signature(auto=%s), decorator module %s, function module %s' % (
                             mk, auto, dfut and 'postponed' or 'eager', lfut and 'postponed' or 'eager')
